@@ -37,7 +37,8 @@ def run(chk, repo: Repo):
     chk.rule("C13-R6", "expansion geometries: shared input reshaping helpers and squeeze in both directions", floor=4)
     _r1(chk, repo)
     from . import c19
-    _ShadowRule(chk, "C19-R5", "C13-R1").run(lambda c: c19._r5(c, repo, repo.cls(c19.S)))
+    from .common import best_of
+    _ShadowRule(chk, "C19-R5", "C13-R1").run(lambda c: best_of(c, (1, 2), lambda t, lvl: c19._r5(t, repo, repo.cls(c19.S), lvl)))
     _r2(chk, repo)
     _r3(chk, repo)
     _r4(chk, repo)
